@@ -196,6 +196,17 @@ def generate(rng, tier, idx, force=None):
                 t["page"]["args"].pop("type", None)
             for sec in all_sections(t):
                 sec["args"].pop("type", None)
+    # an argument only the reference backends accept, overridden by falsy values ("" beats "T": an override is an
+    # override whatever its truth value)
+    if backend.startswith("sim") and rng.random() < 0.4:
+        for t in tmpls:
+            if rng.random() < 0.7:
+                t["targs"]["flag"] = "T"
+            if t["page"] and rng.random() < 0.5:
+                t["page"]["args"]["flag"] = rng.choice(("", "P"))
+            for sec in all_sections(t):
+                if rng.random() < 0.5:
+                    sec["args"]["flag"] = rng.choice(("", "", "S"))
     return {"engine": NAME, "property": PROPERTY, "backend": backend, "tmpls": tmpls, "ops": ops, "faults": [], "base": base,
             "separate_dirs": separate, "nodir": nodir}
 
